@@ -184,7 +184,64 @@ def rule_c(ctx):
     ctx.floor(R, 1)
 
 
+def rule_d(ctx):
+    R = "C05.d"
+    ctx.rule(R, "the distance scales linearly with a constant factor on the cell weights: homogeneity-degree analysis of "
+             "_compute_face_weight (cell_weights has degree 1, fluxes / grid data 0, the regularisation floor any; sums need equal degrees, "
+             "products add, quotients subtract, powers multiply; averages, norms and reshapes keep the degree; transport_density(weighted) "
+             "and cell_weighted_flux add 1) -- every return path of every mobility mode, helpers included, must give (face weight, inverse) "
+             "the degrees (1, -1)")
+    from ..degree import ANY, Degree, Mismatch
+
+    m = ctx.model
+    f = m.func(WAS, "VariationalWassersteinDistance._compute_face_weight")
+    ctx.instance(R)
+
+    def base(t):
+        if t == "self.cell_weights":
+            return 1
+        if t == "self.regularization":
+            return ANY
+        if t.startswith("self.grid") or t in ("self.L", "self.mass_matrix_faces"):
+            return 0
+        return None
+
+    def add(a, b):
+        return None if a is None or b is None else (a if b == ANY else b if a == ANY else a + b)
+
+    def td(ev, c, env):
+        w = next((k.value for k in c.keywords if k.arg == "weighted"), c.args[1] if len(c.args) > 1 else None)
+        weighted = True if w is None else (w.value if isinstance(w, ast.Constant) else None)
+        a = ev.ev(c.args[0], env)
+        return None if weighted is None or a is None else (add(a, 1) if weighted else a)
+    calls = {"self.transport_density": td,
+             "self._product": lambda ev, c, env: add(ev.ev(c.args[0], env), ev.ev(c.args[1], env)),
+             "self._harmonic_average": lambda ev, c, env: ev.ev(c.args[0], env),
+             "self.cell_weighted_flux": lambda ev, c, env: add(ev.ev(c.args[0], env), 1),
+             "darsia.cell_to_face_average": lambda ev, c, env: ev.ev(c.args[1], env),
+             "darsia.face_to_cell": lambda ev, c, env: ev.ev(c.args[1], env),
+             "self.face_reconstruction": lambda ev, c, env: ev.ev(c.args[0], env)}
+
+    def resolve(c):
+        g = m.resolve_call(c, f)
+        return g if g is not None and hasattr(g, "node") and getattr(g, "cls", None) is f.cls and norm(c.func) not in calls else None
+    try:
+        rets = sorted(set(Degree(base, calls, resolve).returns(f.node.body, {f.params[1]: 0})), key=str)
+    except Mismatch as e:
+        ctx.ob(R, f.qname, "face weight has degree 1 and its inverse degree -1 in the cell weights, on every return path", False,
+               f"{e}: multiplying a constant weight by c does not scale the face weights by c, so the distance does not scale linearly", f.node, evidence=True)
+        ctx.floor(R, 1)
+        return
+    known = [r for r in rets if isinstance(r, tuple) and len(r) == 2 and None not in r]
+    wrong = [r for r in known if tuple(r) != (1, -1)]
+    ok = bool(known) and not wrong and len(known) == len(rets)
+    ctx.ob(R, f.qname, "face weight has degree 1 and its inverse degree -1 in the cell weights, on every return path", ok,
+           f"return paths with degrees {[tuple(map(str, r)) for r in wrong]}" if wrong else "", f.node, evidence=bool(wrong))
+    ctx.floor(R, 1)
+
+
 def run(ctx):
+    rule_d(ctx)
     rule_a(ctx)
     rule_b(ctx)
     rule_c(ctx)
